@@ -1,6 +1,6 @@
 (* C07 — proofs, part 3: atoms (table `_sequence_integral`, constant, polynomial function) and pad_to. *)
 From Coq Require Import ZArith QArith Qround List Bool Lia Lra Lqa.
-Require Import QV.C07.Model QV.C07.Spec QV.C07.ProofsRange QV.C07.ProofsLoop.
+Require Import QV.C07.Model QV.C07.Spec QV.C07.Wf QV.C07.ProofsRange QV.C07.ProofsLoop.
 Import ListNotations.
 Open Scope Q_scope.
 
